@@ -13,7 +13,7 @@ REPO = os.environ.get('AXV_REPO', '/repo')
 VERIF = os.path.dirname(os.path.dirname(os.path.abspath(__file__)))
 GEN = os.path.join(VERIF, 'gen')
 
-LABEL_RX = re.compile(r'\[((?:C\d+(?:,C\d+)*):)?([A-Za-z0-9_.\-]+)\]')
+LABEL_RX = re.compile(r'\[((?:C\d+(?:,C\d+)*):)([A-Za-z0-9_.\-]+)\]')
 
 VERIF_ERR = (
     'postcondition not satisfied', 'precondition not satisfied', 'assertion failed',
@@ -118,6 +118,10 @@ class Unit:
                 self.props = m.group(1).split(',')
                 i += 1
                 continue
+            if s.startswith('//@strip-pub'):
+                self.strip_pub = True
+                i += 1
+                continue
             if s.startswith('//@trusted'):
                 self.trusted.append(s[len('//@trusted'):].strip())
                 i += 1
@@ -173,6 +177,9 @@ class Unit:
                                 LABEL_RX.sub('', line).strip())
                 self.obligations.append(ob)
                 line = LABEL_RX.sub('', line, count=1)
+            if getattr(self, 'strip_pub', False) and not s.startswith('//'):
+                line = re.sub(r'\bpub\s+(open|closed)\s+', '', line)
+                line = re.sub(r'\bpub\s+(?!\()', '', line)
             emit(line)
             i += 1
 
@@ -248,6 +255,7 @@ class Unit:
         proofs = []       # (regex, [lines])
         subs = []
         ret_name = 'r'
+        use_lemmas = None
         rename = None
         sig_override = None
         mode = 'clauses'
@@ -259,11 +267,11 @@ class Unit:
                 mode = 'loop'
                 cur = loops.setdefault(int(m.group(1)), [])
                 continue
-            m = re.match(r'proof-after\s+/(.*)/\s*$', t)
+            m = re.match(r'proof-(after|before)\s+/(.*)/(?:#(-?\d+))?\s*$', t)
             if m:
                 mode = 'proof'
                 cur = []
-                proofs.append((m.group(1), cur))
+                proofs.append((m.group(2), cur, m.group(1), int(m.group(3) or 0)))
                 continue
             if t.startswith('sub '):
                 subs.append(self._parse_sub(t))
@@ -271,6 +279,10 @@ class Unit:
             m = re.match(r'ret\s+(\w+)\s*$', t)
             if m:
                 ret_name = m.group(1)
+                continue
+            m = re.match(r'use-lemmas\s+(.*)$', t)
+            if m:
+                use_lemmas = m.group(1).strip()
                 continue
             m = re.match(r'rename\s+(\w+)\s*$', t)
             if m:
@@ -304,6 +316,10 @@ class Unit:
         if rename:
             head = re.sub(r'\bfn\s+%s\b' % re.escape(name), 'fn ' + rename, head, count=1)
         body = txt[body_open:]
+        if use_lemmas:
+            # R7: ghost-only `broadcast use` at the top of the body (erased by Verus)
+            body = '{ broadcast use ' + use_lemmas + ';' + body[1:]
+            rw.bump('R7')
         # R7 loop clauses: insert before k-th loop's '{' (indices relative to body)
         loop_braces = X.find_loops(body, 0)
         inserts = []  # (pos_in_body, text)
@@ -312,10 +328,22 @@ class Unit:
                 raise X.AnchorError('fn %s: loop %d not found (has %d)' % (name, k, len(loop_braces)))
             inserts.append((loop_braces[k - 1], ('loop', k, lines)))
             rw.bump('R7')
-        for rx, lines in proofs:
+        for rx, lines, where_, nth in proofs:
             ms = X._find_code_regex(body, rx)
+            if nth < 0:
+                if not ms:
+                    raise X.AnchorError('fn %s: proof anchor /%s/ not found' % (name, rx))
+                ms = [ms[nth]] if len(ms) >= -nth else []
+            elif nth:
+                if len(ms) < nth:
+                    raise X.AnchorError('fn %s: proof anchor /%s/#%d: only %d matches' % (name, rx, nth, len(ms)))
+                ms = [ms[nth - 1]]
             if len(ms) != 1:
                 raise X.AnchorError('fn %s: proof anchor /%s/ matched %d times' % (name, rx, len(ms)))
+            if where_ == 'before':
+                inserts.append((ms[0].start(), ('proof', None, lines)))
+                rw.bump('R7')
+                continue
             # insert after the end of the statement: next ';' at depth 0 from match end
             pos = None
             pd = 0
@@ -450,6 +478,15 @@ class Unit:
                 elif d.get('level') == 'error' and 'aborting' not in d.get('message', ''):
                     diags.append(d)
         self.diags = diags
+        if rlimit is None and any(any(u in d.get('message', '').lower() for u in UNDECIDED_ERR) for d in diags):
+            # a solver resource limit is not a verdict: try once more with a much larger budget
+            for ob in self.obligations:
+                ob.status = 'pending'
+            self.fn_times = {}
+            first_wall = self.wall_s
+            self.run(rlimit=300, timeout=timeout)
+            self.wall_s += first_wall
+            return
         self._classify(p.returncode)
 
     def _classify(self, rc):
